@@ -97,6 +97,13 @@ func ResourceCorpus(packageRoot string, seed int64, variant, nRandom int) *Schem
 		{Name: "name", Type: P("string")},
 	}})
 
+	// an entity with arrays / maps of enums and unions (a value of it can be made unserialisable inside a container)
+	s.Add(&Named{Ident: Ident{"Tagged", ns}, Kind: "record", Fields: []Field{
+		{Name: "name", Type: P("string")},
+		{Name: "tags", Type: A(R(ns, "Color")), Optional: true},
+		{Name: "choices", Type: M(R(ns, "U")), Optional: true},
+	}})
+
 	pt := paramTypes(ns)
 	allParams := func(prefix string, n int, off int) []Field {
 		var fs []Field
@@ -209,6 +216,16 @@ func ResourceCorpus(packageRoot string, seed int64, variant, nRandom int) *Schem
 	ann3.ReadOnly = []string{"zstamp"}
 	ann3.CreateOnly = []string{"ztype"}
 	s.Resources = append(s.Resources, ann3)
+	// create-only annotations without any read-only one
+	ann5 := collection("vr.anncreate", nil, "anncreate", "annId", P("string"), R(ns, "AnnotatedLast"))
+	ann5.Methods = restMethods(restMethodsCollection, true, false, nil, false)
+	ann5.CreateOnly = []string{"ztype", "mid/i"}
+	s.Resources = append(s.Resources, ann5)
+	// every method that returns an entity, on an entity that can be made unserialisable (C08)
+	tagged := collection("vr.tagged", nil, "tagged", "tagId", P("int64"), R(ns, "Tagged"))
+	tagged.Methods = restMethods(restMethodsCollection, true, true, nil, false)
+	tagged.Methods = append(tagged.Methods, Method{Kind: "FINDER", Name: "byTag", Params: []Field{{Name: "tag", Type: R(ns, "Color")}}, Return: tp(R(ns, "Tagged"))})
+	s.Resources = append(s.Resources, tagged)
 	ann4 := collection("vr.annpfx", nil, "annpfx", "annId", P("int64"), R(ns, "AnnotatedPrefix"))
 	ann4.Methods = restMethods(restMethodsCollection, true, false, nil, false)
 	ann4.ReadOnly = []string{"id", "f1/s", "meta"}
